@@ -169,6 +169,8 @@ def build(unit, cfile, workdir, loop_contracts=None, tag="b"):
 
 def flags_for(unit, confirm=False):
     fl = list(unit.get("flags", DEFAULT_FLAGS)) + list(unit.get("extra_flags", []))
+    if unit.get("mode", "dfcc") == "plain":
+        fl.append("--drop-unused-functions")
     uw = unit.get("unwind")
     if confirm:
         uw = unit["confirm"].get("unwind", uw)
